@@ -27,13 +27,28 @@ func (s *scriptedStore) ncalls() int {
 	return s.calls
 }
 
+// storeFailure: the errors a failing store returns.  Real stores fail with all of these: the casync-protocol
+// store returns a bare io.EOF when the peer hangs up between two messages, io.ErrUnexpectedEOF inside one.
+// None of them may look like the end of the blob to a reader.
+func storeFailure(k int) error {
+	switch k % 4 {
+	case 0:
+		return io.EOF
+	case 1:
+		return io.ErrUnexpectedEOF
+	case 2:
+		return fmt.Errorf("scripted store failure: %w", io.EOF)
+	}
+	return errors.New("scripted store failure")
+}
+
 func (s *scriptedStore) GetChunk(id desync.ChunkID) (*desync.Chunk, error) {
 	s.mu.Lock()
 	defer s.mu.Unlock()
 	k := s.calls
 	s.calls++
 	if s.fail[k] || s.down {
-		return nil, errors.New("scripted store failure")
+		return nil, storeFailure(k)
 	}
 	b, ok := s.data[id]
 	if !ok {
